@@ -65,6 +65,12 @@ SCHEMAS = [
     ONEOF(S(maxLength=2), I(minimum=0)),
     ONEOF(O({"a": I()}, required=["a"]), O({"c": I(maximum=5), "b": S(), "d": dict(type="boolean")}, required=["b"])),
     O({"u": ONEOF(O({"a": I()}, required=["a"]), O({"c": I(), "b": S()}, required=["b"])), "l": A(ONEOF(S(), I()), maxItems=2)}, required=[]),
+    # zero upper bounds (a bound of 0 is a bound, not "unset") and property counts of maps
+    A(I(), maxItems=0),
+    S(maxLength=0),
+    O({"e": A(S(maxLength=0), maxItems=1), "z": A(I(), maxItems=0)}, required=[]),
+    O({}, additionalProperties=I(), maxProperties=0),
+    O({}, additionalProperties=S(maxLength=1), minProperties=1, maxProperties=1),
 ]
 
 EXTRA_COMPONENTS = []
@@ -136,6 +142,8 @@ def go_schema(s):
         ps = ", ".join("{Name: %s, Required: %s, S: %s}" % (json.dumps(n), "true" if n in s.get("required", []) else "false", go_schema(p)) for n, p in s["properties"].items())
         f.append("Props: []zzProp{%s}" % ps)
     if s.get("additionalProperties") is False: f.append("AddlFalse: true")
+    if "minProperties" in s: f.append("MinProps: zzInt(%d)" % s["minProperties"])
+    if "maxProperties" in s: f.append("MaxProps: zzInt(%d)" % s["maxProperties"])
     return "&zzSchema{%s}" % ", ".join(f)
 
 L = ["openapi: 3.0.3", "info: {title: t, version: '1'}", "paths:"]
@@ -164,5 +172,5 @@ for i in range(len(SCHEMAS)):
         rnd.append([0, i, v])
 print(json.dumps({"packages": [{"name": "sm", "spec": spec, "extra_go": {"data.go": "\n".join(data) + "\n"}}],
                   "cases": {tier: ([{"entry": "HAccept", "args": acc}] if mode == "accept" else [{"entry": "HRound", "args": rnd}])},
-                  "bounds": {"schemas": "%d named schemas: integer bounds (inclusive/exclusive/negative), multipleOf, integer and string enums, string length, arrays (min/max/uniqueItems, nested item validation), objects (required/optional/nullable members, additionalProperties:false, nesting, 10 and 18 members so the required mask spans 2 and 3 bytes), three recursive schemas (member / array-item self reference, unfolded to depth 2) and three allOf schemas (a branch that only lists required members of the other, both orders, a branch with own properties), two map schemas (additionalProperties with a schema), string-formatted uint64 members (1-2 digits; every uint64 is C13's subject), and three sum types (by JSON type; objects told apart by their own members; as member and array item)" % len(SCHEMAS),
+                  "bounds": {"schemas": "%d named schemas: integer bounds (inclusive/exclusive/negative), multipleOf, integer and string enums, string length, arrays (min/max/uniqueItems, nested item validation), objects (required/optional/nullable members, additionalProperties:false, nesting, 10 and 18 members so the required mask spans 2 and 3 bytes), three recursive schemas (member / array-item self reference, unfolded to depth 2) and three allOf schemas (a branch that only lists required members of the other, both orders, a branch with own properties), two map schemas (additionalProperties with a schema), string-formatted uint64 members (1-2 digits; every uint64 is C13's subject), and three sum types (by JSON type; objects told apart by their own members - incl. instances that carry the required members of two variants and must be refused; as member and array item), zero upper bounds (maxItems / maxLength / maxProperties 0) and property counts of maps" % len(SCHEMAS),
                              "instances": "%d schema-directed instance skeletons per schema (valid instances, dropped required member, wrong type, null, undeclared member; 0..3 array items; optional members present/absent/null) with symbolic leaves: every digit of 1-2 digit integers with optional sign, every printable-ASCII string byte (0..2 bytes plus a two-byte rune), every boolean" % nvar}}))
